@@ -163,6 +163,14 @@ KERNELS_S = [
 ]
 KERNELS += KERNELS_B + KERNELS_I + KERNELS_R + KERNELS_C + KERNELS_S
 
+# ---- setters: already_setup stays honest (contracts/c03t.h) ----
+PMRT_PARAMS = [('restrict_to_cylindrical_FOV', '_Bool'), ('num_tangential_LORs', 'int'), ('use_actual_detector_boundaries', '_Bool'), ('do_symmetry_90degrees_min_phi', '_Bool'), ('do_symmetry_180degrees_min_phi', '_Bool'), ('do_symmetry_swap_segment', '_Bool'), ('do_symmetry_swap_s', '_Bool'), ('do_symmetry_shift_z', '_Bool')]
+KERNELS_T = [dict(name="K_pmrt_set_" + n, file=PMRT, cxx_name="ProjMatrixByBinUsingRayTracing::set_" + n,
+                  func=r"ProjMatrixByBinUsingRayTracing::set_%s\((?:bool|int) val\)" % n, c_header="void K_pmrt_set_%s(struct PMRT* self, %s val)" % (n, t), loops=0,
+                  rules=[(r"this->%s = val;" % n, "K_PARAM_ASSIGN(self->%s, val);" % n, 1), (r"\bthis->", "self->", (1, 6)),
+                         (r"\bfalse\b", "0", (0, 3)), (r"\btrue\b", "1", (0, 3))]) for n, t in PMRT_PARAMS]
+KERNELS += KERNELS_T
+
 
 def extra_gen(repo, gen_dir, metas):
     h = extract.strip_comments(open(os.path.join(repo, "src/include/stir/recon_buildblock/ProjMatrixByBin.h")).read())
@@ -283,6 +291,12 @@ def jobs(tier, gen_dir):
                    backend="kissat", replace=["K_pm_clear_cache"], replay="setup"))
     out.append(Job("c03/K_pmrt_set_up_tail", HS, "h_K_pmrt_set_up_tail", enforce="K_pmrt_set_up_tail", kernels=["K_pmrt_set_up_tail"], flags=CH, no_base_flags=True, timeout=120, min_obligations=2,
                    backend="kissat", replace=["K_pm_clear_cache"], replay="setup"))
+    HT = os.path.join(VERIF, "harness", "c03t.c")
+    for k in KERNELS_T:
+        out.append(Job("c03/" + k["name"], HT, "h_" + k["name"], enforce=k["name"], kernels=[k["name"]], flags=CH, no_base_flags=True, timeout=120, min_obligations=2, backend="kissat",
+                       replay="setup"))
+    out.append(Job("c03/canary/K_pmrt_set_do_symmetry_swap_s", HT, "h_K_pmrt_set_do_symmetry_swap_s", enforce="K_pmrt_set_do_symmetry_swap_s", kernels=["K_pmrt_set_do_symmetry_swap_s"],
+                   kind="canary", defines={"CANARY_PMRT_SETTERS": None}, expect_fail=r"K_pmrt_set_do_symmetry_swap_s\.postcondition", no_base_flags=True, timeout=120))
     out.append(Job("c03/canary/K_pm_clear_cache", HS, "h_K_pm_clear_cache", enforce="K_pm_clear_cache", kernels=["K_pm_clear_cache"], kind="canary", loop_contracts=True,
                    replace=["BUCKET_ROW_min", "BUCKET_ROW_max"], defines={"CANARY_K_pm_clear_cache": None}, expect_fail=r"K_pm_clear_cache\.postcondition", no_base_flags=True, timeout=120))
     out.append(Job("c03/canary/K_op_swap_xy_yx_img", HARNESS_I, "h_K_op_swap_xy_yx_img", enforce="K_op_swap_xy_yx_img", kernels=["K_op_swap_xy_yx_img"], kind="canary",
